@@ -66,6 +66,10 @@ func c08Session(t *rapid.T) {
 	if len(reloadLines) == 0 {
 		os.WriteFile(reloadFile, nil, 0o644)
 	}
+	// a second reload source with exactly as many lines as the initial input
+	sameFile := filepath.Join(fifoDir, "reload-same-size.txt")
+	sameLines := c08Lines("s-", n, 1)
+	os.WriteFile(sameFile, []byte(strings.Join(sameLines, "\n")+"\n"), 0o644)
 
 	s := StartSession(t, SessionCfg{Args: append([]string{"--no-mouse"}, margs...), InputCmd: "cat " + shQuote(sessDirFifo), Width: 70, Height: 20})
 	defer s.Close()
@@ -223,11 +227,23 @@ func c08Session(t *rapid.T) {
 			feedDone <- nil
 			converge("before reload")
 			sync := rapid.Bool().Draw(t, "sync")
-			body = "reload(cat " + reloadFile + ")"
-			if sync {
-				body = "reload-sync(cat " + reloadFile + ")"
+			src, srcLines := reloadFile, reloadLines
+			if rapid.Bool().Draw(t, "sameSize") {
+				src, srcLines = sameFile, sameLines
+				labels["reload_same_size"] = true
 			}
-			loaded = reloadLines
+			cmd := "cat " + src
+			if rapid.Bool().Draw(t, "slowReload") && len(srcLines) >= 5 {
+				// the new input arrives in two instalments
+				k := len(srcLines) * 2 / 5
+				cmd = fmt.Sprintf("head -n %d %s; sleep 0.3; tail -n +%d %s", k, src, k+1, src)
+				labels["reload_slow"] = true
+			}
+			body = "reload(" + cmd + ")"
+			if sync {
+				body = "reload-sync(" + cmd + ")"
+			}
+			loaded = srcLines
 			excluded = map[string]bool{}
 			reloaded = true
 			labels["reload"] = true
